@@ -22,6 +22,12 @@ to_bytes().len() == the model's length, tag byte, sink verdict, bytes put on the
 decoder accept/reject, decoded shape, decoded == original.  Error *classes* are recorded, not judged
 (the property says "rejected").  Plus seeded random byte strings under catch_unwind (panics only).
 
+Growth stage: specs/relay/RelayDatagramPath.tla composes this model with RelayWire's batch model into the whole
+relayed path of one batch (client sink -> relay decode -> relay forwarding sink -> client decode ->
+take_segments(n) until empty): EndToEnd / OnlySent / HonestNeverDropped / RefusedOnlyIfUnsendable are checked
+by TLC (RawNeverDropped is the C05 non-property, refuted) and every terminal state is replayed on the same real
+functions (`--mode path`), comparing the batch's fate and the delivered pieces.
+
 Mutation self-tests (private copy of /repo): (a) `size < MAX_PACKET_SIZE` in Conn::start_send =>
 VIOLATION kind=sink dir=c2r; (b) Status accepted under V1 (`>= ProtocolVersion::V1`) => VIOLATION
 kind=decode_accept tag=13; undone => exit 0.
@@ -29,6 +35,7 @@ kind=decode_accept tag=13; undone => exit 0.
 import json
 
 from vlib import ToolError
+from checks.relayproto_common import binding_selftest
 
 META = {
     "level": "model_checking",
@@ -71,11 +78,61 @@ def run(ctx):
     reps = ctx.pick(2, 20)
     allc = [c for c in cases for _ in range(reps if c["origin"] == "adversary" or c["msg"]["n"] < 2000 else ctx.pick(1, 3))]
     execute(ctx, allc, ctx.pick(20000, 2000000))
+    path_stage(ctx)
     ctx.cov["rule"] = ("every terminal state of RelayFrames: all message kinds x directions x boundary lengths x versions "
                        "(sender origin) and all adversarial wire shapes of the alphabet (exhaustive), %d concretisations each "
                        "for small cases; non-trivial = everything except the fixed-size kinds" % reps)
     ctx.cov["exhaustive"] = True
     ctx.cov["abstract_cases"] = len(cases)
+
+
+def path_stage(ctx):
+    """Growth: specs/relay/RelayDatagramPath.tla — a batch through sending client sink -> relay decode -> relay forwarding
+    sink -> receiving client decode -> take_segments(n) until empty, on the real functions."""
+    ctx.tlc("relay", "MC_RelayDatagramPath", cfg="RelayDatagramPath_nonproperty.cfg", mode="mc", workers=2, coverage=False,
+            expect_violation="RawNeverDropped")
+    res = ctx.tlc("relay", "MC_RelayDatagramPath", cfg="RelayDatagramPath.cfg", mode="gen", workers=2, timeout=3000,
+                  require_actions=["ClientSinkAccept", "ClientSinkReject", "RelayDecodeOk", "RelayDecodeErr", "RelaySinkAccept",
+                                   "RelaySinkReject", "ClientDecodeOk", "Take"])
+    cases = res.replays
+    if not cases:
+        raise ToolError("TLC produced no path cases")
+    inp = ctx.write_ndjson("c10-path.in", cases)
+    outp = ctx.path("c10-path.out")
+    ctx.run_bin("vh_relayproto", ["c10", "--mode", "path", "--in", inp, "--out", outp], timeout=3000)
+    obs = ctx.read_ndjson(outp)
+    if len(obs) != len(cases):
+        raise ToolError("harness returned %d path observations for %d cases" % (len(obs), len(cases)))
+    for c, o in zip(cases, obs):
+        judge_path(ctx, c, o)
+    for c, o in zip(cases, obs):
+        if c["fate"] == "delivered" and len(c["pieces"]) >= 2:
+            binding_selftest(ctx, judge_path, c, o, [
+                ("fate", lambda c_, o_: o_.__setitem__("fate", "dropped_at_relay")),
+                ("piece length", lambda c_, o_: o_["pieces"][0].__setitem__("len", o_["pieces"][0]["len"] + 1)),
+                ("piece count", lambda c_, o_: o_["pieces"].pop()),
+                ("bytes", lambda c_, o_: o_.__setitem__("concat_eq", False)),
+                ("sender key / ecn", lambda c_, o_: o_.__setitem__("meta_eq", False))])
+            break
+    ctx.cov["path_cases"] = len(cases)
+
+
+def judge_path(ctx, c, o):
+    ctx.count(case_key=["path", c["origin"], c["len"], c["seg"], c["ecn"], c["n"]], nontrivial=c["fate"] == "delivered")
+    sig = {"stage": "path", "origin": c["origin"], "exp_fate": c["fate"]}
+    if o.get("panic"):
+        ctx.report(dict(sig, kind="panic"), "relayed path panicked: %s" % o["panic"], c)
+    elif o["fate"] == "stream_error":
+        raise ToolError("loopback transport failed in the path stage (environment)")
+    elif o["fate"] != c["fate"]:
+        ctx.report(dict(sig, kind="fate", got=o["fate"]),
+                   "batch [len %d, seg %d] from %s: %s, the model says %s" % (c["len"], c["seg"], c["origin"], o["fate"], c["fate"]), c)
+    elif c["fate"] == "delivered":
+        if o["pieces"] != c["pieces"]:
+            ctx.report(dict(sig, kind="pieces"), "batch [len %d, seg %d] taken by %d: pieces %s, the model says %s"
+                       % (c["len"], c["seg"], c["n"], o["pieces"][:6], c["pieces"][:6]), c)
+        elif not o["concat_eq"] or not o["meta_eq"]:
+            ctx.report(dict(sig, kind="contents"), "delivered bytes / sender / ECN differ from what was sent", c)
 
 
 def execute(ctx, cases, random_n):
@@ -90,6 +147,24 @@ def execute(ctx, cases, random_n):
     for c, o in zip(cases, obs):
         classes_differ += judge(ctx, c, o)
     ctx.cov["rejections_with_other_error_class_than_modelled"] = classes_differ
+    for c, o in zip(cases, obs):
+        if c["origin"] == "sender" and c["sink"] == "accepted" and c["out"]["ok"] and c["msg"]["kind"] == "dgram":
+            binding_selftest(ctx, judge, c, o, [
+                ("encoded_len", lambda c_, o_: o_.__setitem__("enc_len", o_["enc_len"] + 1)),
+                ("wire length", lambda c_, o_: o_.__setitem__("wire_len", o_["wire_len"] - 1)),
+                ("tag byte", lambda c_, o_: o_.__setitem__("first_byte", o_["first_byte"] ^ 1)),
+                ("sink verdict", lambda c_, o_: o_.__setitem__("sink", "too_large")),
+                ("sink bytes", lambda c_, o_: o_.__setitem__("sink_wire_eq", False)),
+                ("decoder verdict", lambda c_, o_: o_.__setitem__("decode_ok", False)),
+                ("decoded length", lambda c_, o_: o_["decoded"].__setitem__("n", o_["decoded"]["n"] + 1)),
+                ("round trip", lambda c_, o_: o_.__setitem__("roundtrip_eq", False)),
+                ("expected verdict flipped", lambda c_, o_: c_["out"].__setitem__("ok", False)),
+                ("panic", lambda c_, o_: o_.__setitem__("panic", "boom"))])
+            break
+    for c, o in zip(cases, obs):
+        if c["origin"] == "adversary" and not c["out"]["ok"]:
+            binding_selftest(ctx, judge, c, o, [("decoder accepts", lambda c_, o_: o_.__setitem__("decode_ok", True))])
+            break
     if rnd is not None:
         ctx.cov["random_byte_strings"] = {"strings": rnd["random"], "decodes_ok": rnd["ok"], "decodes_err": rnd["err"]}
         ctx.count(case_key="random-bytes", nontrivial=True, n=rnd["ok"] + rnd["err"])
